@@ -245,6 +245,33 @@ func GenExifRec(r *core.Rng, o RecOpts) *ExifRec {
 	u := func(k string, v uint64) { e.Exact[k] = []string{fmt.Sprintf("u:%d", v)}; e.Names = append(e.Names, k) }
 
 	// ---- IFD0
+	// strip location and size: one value per strip, SHORT or LONG; the first one is reported
+	for _, f := range []struct {
+		tag uint16
+		key string
+	}{{0x0111, "Exif.StripOffsets"}, {0x0117, "Exif.StripByteCounts"}} {
+		if !has() || !r.Chance(1, 2) {
+			continue
+		}
+		n := r.Pick(1, 1, 2, 2, 3)
+		first := uint32(0)
+		if r.Bool() {
+			vs := make([]uint16, n)
+			for i := range vs {
+				vs[i] = uint16(r.Pick(8, 200, 300, 4096, 65535, r.Intn(65536)))
+			}
+			first = uint32(vs[0])
+			rec.IFD0.Add(f.tag, Short(vs...))
+		} else {
+			vs := make([]uint32, n)
+			for i := range vs {
+				vs[i] = uint32(r.Pick(8, 70000, 0x7fffffff, 0xffffffff, r.Intn(1<<24)))
+			}
+			first = vs[0]
+			rec.IFD0.Add(f.tag, Long(vs...))
+		}
+		u(f.key, uint64(first))
+	}
 	if has() {
 		mk := randText(r, o)
 		if r.Chance(3, 5) {
